@@ -83,19 +83,29 @@ func init() {
 	extraOps["rawconn"] = lcRawconn
 	extraOps["burst"] = lcBurst
 	extraOps["par"] = lcPar
-	extraOps["census"] = func(d *brokerDrv, pos []string, m map[string]string) string { return lcCensus() }
+	extraOps["census"] = func(d *brokerDrv, pos []string, m map[string]string) string { lcHurry(d); return lcCensus() }
 	extraOps["lstop"] = lcStop
 	extraOps["lclose"] = func(d *brokerDrv, pos []string, m map[string]string) string {
 		// like `close`, but also allowed on a connection the broker has already closed
 		if len(pos) < 1 || d.b.Conns[pos[0]] == nil {
 			return "bad-op"
 		}
+		lcHurry(d)
 		d.b.Conns[pos[0]].Close()
 		return d.collect("")
 	}
 }
 
+// lcHurry: once an op has reported HANG the broker is wedged for good (or the machine hopelessly slow); the remaining ops
+// of the script only document the state, they need not wait the full quiescence timeout again.
+func lcHurry(d *brokerDrv) {
+	if d.b != nil && d.b.Hang && d.qTimeout > 300*time.Millisecond {
+		d.qTimeout = 300 * time.Millisecond
+	}
+}
+
 func lcRawconn(d *brokerDrv, pos []string, m map[string]string) string {
+	lcHurry(d)
 	if len(pos) < 1 {
 		return "bad-op"
 	}
@@ -205,6 +215,7 @@ func lcBurst(d *brokerDrv, pos []string, m map[string]string) string {
 	if len(pos) < 2 {
 		return "bad-op"
 	}
+	lcHurry(d)
 	c := d.b.Conns[pos[0]]
 	if c == nil {
 		return "no-conn"
@@ -242,6 +253,7 @@ func lcParse(d *brokerDrv, spec string) (*lcWrite, string) {
 
 // lcPar: all bursts are written at the same moment by one goroutine each.
 func lcPar(d *brokerDrv, pos []string, m map[string]string) string {
+	lcHurry(d)
 	var ws []*lcWrite
 	for _, spec := range pos {
 		w, e := lcParse(d, spec)
@@ -339,7 +351,12 @@ func lcStop(d *brokerDrv, pos []string, m map[string]string) string {
 			return e
 		}
 	}
-	ctx, cancel := context.WithTimeout(context.Background(), 3*time.Second)
+	lcHurry(d)
+	limit := 3 * time.Second
+	if d.b.Hang {
+		limit = 500 * time.Millisecond // Stop waits for the wedged connection: it will not return
+	}
+	ctx, cancel := context.WithTimeout(context.Background(), limit)
 	defer cancel()
 	done := make(chan error, 1)
 	start := make(chan struct{})
@@ -356,7 +373,7 @@ func lcStop(d *brokerDrv, pos []string, m map[string]string) string {
 		if err != nil || ctx.Err() != nil {
 			res = "stop-timeout"
 		}
-	case <-time.After(5 * time.Second):
+	case <-time.After(limit + 2*time.Second):
 		res = "stop-hang"
 	}
 	wg.Wait()
